@@ -2,10 +2,10 @@
 //! `local_channel::mpsc` (C16) driven through the line protocol, with counting wakers.
 //!
 //! ```text
-//! case <name> counter <cap> [probe]   acquire h | drop g | avail h w | clone h | total h | dropH h | dbg h | dbgG g
+//! case <name> counter <cap> [probe]   acquire h | drop g | dropP g | avail h w | clone h | total h | dropH h | dbg h | dbgG g
 //! case <name> lw [default]            reg w | wake | take | dbg
-//! case <name> chan                    send i x | ssend i x | clone i | dropS i | close i | poll w | recv w | recvNew w |
-//!                                     recvDrop | rsender | dropR | sready i w | sflush i w | sclose i w | dbgS i | dbgR
+//! case <name> chan                    send i x | ssend i x | clone i | dropS i | dropSP i | close i | poll w | recv w | recvNew w |
+//!                                     recvDrop | rsender | dropR | dropRP | sready i w | sflush i w | sclose i w | dbgS i | dbgR
 //! ```
 //! Every observation ends in ` woke=<ids>`: which of the counting wakers `0..NW` were woken by this
 //! operation (ascending, with multiplicity; `-` = none).
@@ -22,17 +22,25 @@
 //! polls a fresh one; `recvDrop` drops a pending future.  Every other receiver operation (`poll`,
 //! `rsender`, `dropR`, `dbgR`) drops a pending future first — the borrow checker demands it of any user.
 //!
+//! `dropP g` / `dropSP i` / `dropRP` drop the guard / sender / receiver while the thread is unwinding
+//! from a panic that is then caught (`drop_unwinding`): the property makes no exception for it.
+//! `avail h w` with `w = 4, 5` registers an **inline-polling** waker: `Waker::wake` re-enters the
+//! counter from inside `task.wake()` (`total()`, `available(cx)`) and the releasing drop reports what
+//! the woken task saw (`dropped saw=<total>,<available> woke=<w>`): it must find the slot freed.
+//!
 //! The T3 oracles below are written against the *property statements* with their own bookkeeping
 //! (number of live guards, FIFO queue of accepted messages, "receiver returned Pending with waker w
 //! and has not been woken since"); they do not look at the Lean model.
 use std::{
+    cell::{Cell, RefCell},
     collections::{HashMap, VecDeque},
     future::Future,
     io::Write,
     pin::Pin,
+    rc::Rc,
     sync::{
         atomic::{AtomicUsize, Ordering},
-        Arc,
+        Arc, OnceLock,
     },
     task::{Context, Poll, Wake, Waker},
 };
@@ -51,14 +59,96 @@ const T3_CAP: u64 = 4;
 // ------------------------------------------------------------------------------------------------
 // counting wakers
 // ------------------------------------------------------------------------------------------------
-struct CW(AtomicUsize);
+/// `1`: the wake counter; `inline`: `Some(id)` for an **inline-polling** waker (ids `NW..NW+NI`):
+/// `wake()` polls the woken task on the spot — it re-enters the counter from inside `task.wake()`,
+/// reads `total()` and asks `available(cx)` with itself as the waker (what a synchronous executor or a
+/// `FuturesUnordered`-style waker does), and records what it saw.
+struct CW(AtomicUsize, Option<usize>);
+impl CW {
+    fn woken(&self) {
+        self.0.fetch_add(1, Ordering::SeqCst);
+        if let Some(id) = self.1 {
+            inline_poll(id);
+        }
+    }
+}
 impl Wake for CW {
     fn wake(self: Arc<Self>) {
-        self.0.fetch_add(1, Ordering::SeqCst);
+        self.woken();
     }
     fn wake_by_ref(self: &Arc<Self>) {
-        self.0.fetch_add(1, Ordering::SeqCst);
+        self.woken();
     }
+}
+
+/// number of inline-polling wakers (ids `NW..NW+NI`), accepted by the counter's `avail` only
+const NI: usize = 2;
+
+/// what the inline-polling tasks hold: their own handle of the counter (a clone of the handle they
+/// asked through) and their own waker; `saw`: (waker id, `total()`, `available(cx)`) per inline poll
+#[derive(Default)]
+struct InlineCtx {
+    task: [Option<Rc<Counter>>; NI],
+    wakers: Vec<Waker>,
+    saw: Vec<(usize, usize, bool)>,
+}
+thread_local! {
+    static INLINE: RefCell<InlineCtx> = RefCell::new(InlineCtx::default());
+    /// set while an operation drops an object during an unwind: the property the verdict belongs to
+    static UNWINDING: Cell<Option<&'static str>> = const { Cell::new(None) };
+    static PANICS_IN_OP: Cell<u32> = const { Cell::new(0) };
+}
+/// input lines consumed so far / where a process-ending verdict goes (`<out>.watchdog`, see check.py)
+static LINES: AtomicUsize = AtomicUsize::new(0);
+static WATCHDOG: OnceLock<String> = OnceLock::new();
+
+fn inline_poll(id: usize) {
+    // nothing of the context stays borrowed while the code under test runs
+    let (c, w) = INLINE.with(|x| {
+        let x = x.borrow();
+        (x.task[id - NW].clone(), x.wakers.get(id - NW).cloned())
+    });
+    if let (Some(c), Some(w)) = (c, w) {
+        let total = c.total();
+        let avail = c.available(&Context::from_waker(&w));
+        INLINE.with(|x| x.borrow_mut().saw.push((id, total, avail)));
+    }
+}
+
+/// Drop `x` while the thread is unwinding from a panic that is then caught (`catch_unwind`: an
+/// executor isolating a panicking task, a `select!` arm that panics, …).  A destructor of the code
+/// under test that panics here would abort the process: the panic hook leaves the verdict in
+/// `<out>.watchdog` first.
+fn drop_unwinding<T>(x: T, prop: &'static str, rep: &mut Report) {
+    rep.flush();
+    PANICS_IN_OP.with(|p| p.set(0));
+    UNWINDING.with(|u| u.set(Some(prop)));
+    let r = catch(move || {
+        let _held = x;
+        panic!("unwinding with the object on the stack");
+    });
+    UNWINDING.with(|u| u.set(None));
+    let _ = r; // always the panic raised above
+}
+
+fn install_panic_hook() {
+    std::panic::set_hook(Box::new(|_| {
+        let n = PANICS_IN_OP.with(|p| {
+            p.set(p.get() + 1);
+            p.get()
+        });
+        if let (Some(prop), true) = (UNWINDING.with(|u| u.get()), n >= 2) {
+            if let Some(path) = WATCHDOG.get() {
+                let _ = std::fs::write(
+                    path,
+                    format!(
+                        "#T3 prop={prop} case=@{} a destructor panicked while the thread was unwinding (object dropped during a caught panic): the process aborts\n",
+                        LINES.load(Ordering::SeqCst)
+                    ),
+                );
+            }
+        }
+    }));
 }
 
 struct Wakers {
@@ -72,16 +162,17 @@ struct Wakers {
 }
 impl Wakers {
     fn new() -> Self {
-        let cws: Vec<Arc<CW>> = (0..NW).map(|_| Arc::new(CW(AtomicUsize::new(0)))).collect();
-        let wakers = cws.iter().map(|c| Waker::from(c.clone())).collect();
-        let probe_cw = Arc::new(CW(AtomicUsize::new(0)));
+        let cws: Vec<Arc<CW>> = (0..NW + NI).map(|i| Arc::new(CW(AtomicUsize::new(0), (i >= NW).then_some(i)))).collect();
+        let wakers: Vec<Waker> = cws.iter().map(|c| Waker::from(c.clone())).collect();
+        INLINE.with(|x| x.borrow_mut().wakers = wakers[NW..].to_vec());
+        let probe_cw = Arc::new(CW(AtomicUsize::new(0), None));
         let probe = Waker::from(probe_cw.clone());
-        Wakers { cws, wakers, seen: vec![0; NW], probe_cw, probe, probe_seen: 0 }
+        Wakers { cws, wakers, seen: vec![0; NW + NI], probe_cw, probe, probe_seen: 0 }
     }
     /// wakers woken since the last call (ascending ids, with multiplicity)
     fn delta(&mut self) -> Vec<usize> {
         let mut v = vec![];
-        for i in 0..NW {
+        for i in 0..NW + NI {
             let now = self.cws[i].0.load(Ordering::SeqCst);
             for _ in self.seen[i]..now {
                 v.push(i);
@@ -98,7 +189,7 @@ impl Wakers {
         d
     }
     fn id_of(&self, w: &Waker) -> Option<usize> {
-        (0..NW).find(|&i| w.data() == Arc::as_ptr(&self.cws[i]) as *const ())
+        (0..NW + NI).find(|&i| w.data() == Arc::as_ptr(&self.cws[i]) as *const ())
     }
 }
 
@@ -198,6 +289,17 @@ impl T3 {
 /// destructor of the code under test that panics (e.g. a count that underflows) is an oracle failure
 /// of the finished case, and must not take the harness down.
 fn teardown(eng: &mut Eng, wk: &mut Wakers, rep: &mut Report, t3: &mut T3) {
+    // the inline-polling tasks of the finished case are gone: their wakers do nothing from here on
+    let tasks: Vec<Rc<Counter>> = INLINE.with(|x| {
+        let mut x = x.borrow_mut();
+        x.saw.clear();
+        x.task.iter_mut().filter_map(|t| t.take()).collect()
+    });
+    for t in tasks {
+        if let Err(m) = catch(move || drop(t)) {
+            t3.fail(rep, "C17", format!("dropping a Counter handle at the end of the case panicked: {m}"));
+        }
+    }
     match std::mem::replace(eng, Eng::Idle) {
         Eng::Idle => {}
         Eng::Counter(mut e) => {
@@ -247,12 +349,16 @@ fn teardown(eng: &mut Eng, wk: &mut Wakers, rep: &mut Report, t3: &mut T3) {
 }
 
 fn run(a: &Args) {
-    silence_panics();
+    install_panic_hook();
+    if let Some(out) = &a.output {
+        let _ = WATCHDOG.set(format!("{out}.watchdog"));
+    }
     let mut rep = Report::new(&a.output);
     let mut t3 = T3 { counts: HashMap::new() };
     let mut wk = Wakers::new();
     let mut eng = Eng::Idle;
     for line in in_lines(&a.input) {
+        LINES.fetch_add(1, Ordering::SeqCst);
         let ws: Vec<&str> = line.split_whitespace().collect();
         let real: String = if ws.first() == Some(&"case") {
             teardown(&mut eng, &mut wk, &mut rep, &mut t3);
@@ -390,7 +496,7 @@ fn counter_op(e: &mut CounterEng, ws: &[&str], wk: &mut Wakers, rep: &mut Report
             e.live += 1;
             format!("guard {}", e.guards.len() - 1)
         }
-        ["drop", g] => {
+        [op @ ("drop" | "dropP"), g] => {
             let g = num(g).filter(|g| *g < e.guards.len() && e.guards[*g].is_some())?;
             let guard = e.guards[g].take();
             // property: the drop that brings the count below the capacity wakes the task most
@@ -399,12 +505,42 @@ fn counter_op(e: &mut CounterEng, ws: &[&str], wk: &mut Wakers, rep: &mut Report
                 expect_wake = e.pend.take();
             }
             e.live -= 1;
-            drop(guard);
-            "dropped".into()
+            if *op == "drop" {
+                drop(guard);
+            } else {
+                // the same drop while the thread unwinds from a panic that is then caught
+                drop_unwinding(guard, "C17", rep);
+            }
+            // … and the wake-up comes *when the count is below the capacity*: a woken task that polls
+            // inline (re-enters the counter from inside `wake()`) finds the slot freed
+            let saw: Vec<(usize, usize, bool)> = INLINE.with(|x| std::mem::take(&mut x.borrow_mut().saw));
+            let want_saw: Vec<(usize, usize, bool)> = expect_wake.filter(|w| *w >= NW).map(|w| (w, e.live, true)).into_iter().collect();
+            if saw != want_saw {
+                t3.fail(
+                    rep,
+                    "C17",
+                    format!(
+                        "inside the wake-up of this `{op}` the woken task(s) polled inline and saw (waker, total, available) = {saw:?} with {} live guards after the drop (capacity {}): the property demands the wake-up when the count is below the capacity: {want_saw:?}",
+                        e.live, e.cap
+                    ),
+                );
+            }
+            let mut head = String::from("dropped");
+            if !saw.is_empty() {
+                head += " saw=";
+                head += &saw.iter().map(|(_, t, b)| format!("{t},{}", *b as u8)).collect::<Vec<_>>().join(";");
+            }
+            head
         }
         ["avail", h, w] => {
             let h = num(h).filter(|h| has(e, *h))?;
-            let w = num(w).filter(|w| *w < NW)?;
+            let w = num(w).filter(|w| *w < NW + NI)?;
+            if w >= NW {
+                // the inline-polling task owns a handle of its own: a clone of the one it asks through
+                let own = Rc::new(e.handles[h].as_ref().unwrap().clone());
+                let old = INLINE.with(|x| x.borrow_mut().task[w - NW].replace(own));
+                drop(old);
+            }
             let cx = Context::from_waker(&wk.wakers[w]);
             let b = e.handles[h].as_ref().unwrap().available(&cx);
             let want = e.live < e.cap;
@@ -467,6 +603,10 @@ fn counter_op(e: &mut CounterEng, ws: &[&str], wk: &mut Wakers, rep: &mut Report
                 ws[0], e.live, e.cap, woke, want
             ),
         );
+    }
+    let stray_saw: Vec<(usize, usize, bool)> = INLINE.with(|x| std::mem::take(&mut x.borrow_mut().saw));
+    if !stray_saw.is_empty() {
+        t3.fail(rep, "C17", format!("`{}` woke an inline-polling task outside a releasing drop: it saw (waker, total, available) = {stray_saw:?}", ws[0]));
     }
     let after = format!("`{}`", ws[0]);
     counter_totals(e, &after, rep, t3);
@@ -635,12 +775,18 @@ fn chan_op(e: &mut ChanEng, ws: &[&str], wk: &mut Wakers, rep: &mut Report, t3: 
             e.senders.push(Some(s));
             format!("sender {}", e.senders.len() - 1)
         }
-        ["dropS", i] => {
+        [op @ ("dropS" | "dropSP"), i] => {
             let i = num(i).filter(|i| alive(e, *i))?;
             let s = e.senders[i].take();
-            drop(s);
+            if *op == "dropS" {
+                drop(s);
+            } else {
+                // the sender goes while the thread unwinds from a panic that is then caught: no sender
+                // is left all the same, the parked receiver must be woken all the same
+                drop_unwinding(s, "C16", rep);
+            }
             if e.n_senders() == 0 {
-                must_wake = Some("the drop of the last sender");
+                must_wake = Some(if *op == "dropS" { "the drop of the last sender" } else { "the drop of the last sender (during a caught unwind)" });
             }
             "dropped".into()
         }
@@ -717,11 +863,15 @@ fn chan_op(e: &mut ChanEng, ws: &[&str], wk: &mut Wakers, rep: &mut Report, t3: 
             e.senders.push(Some(s));
             format!("sender {}", e.senders.len() - 1)
         }
-        ["dropR"] => {
+        [op @ ("dropR" | "dropRP")] => {
             e.rx.as_ref()?;
             e.drop_fut();
             let rx = e.rx.take()?;
-            drop(rx);
+            if *op == "dropR" {
+                drop(rx);
+            } else {
+                drop_unwinding(rx, "C16", rep);
+            }
             e.queue.clear();
             e.parked = None;
             "dropped".into()
@@ -853,6 +1003,36 @@ fn gen_c17_scenarios(w: &mut dyn Write, n: &mut u64) {
             ops.extend(["avail 2 1", "avail 1 2", "dropH 1", "avail 0 3", "dbg 2", "dbgG 0", "dropH 0", "drop 0", "total 2", "avail 2 0", "clone 2", "dropH 2", "total 3", "drop 1", "avail 3 1"].map(String::from));
             *n += 1;
             emit(w, &format!("case sc-clones-{cap}{} counter {cap}{tag}", if probe { "p" } else { "" }), &ops);
+        }
+    }
+    // a task whose waker polls inline (ids 4, 5) is parked at the top; the drop that frees a slot wakes
+    // it and it must find the slot freed from inside its wake-up — for every capacity, overshoot,
+    // release order, normal drops and drops during a caught unwind
+    for probe in [false, true] {
+        for cap in 1..=3usize {
+            for over in 0..=2usize {
+                for (newest_first, unwind) in [(true, false), (false, false), (true, true), (false, true)] {
+                    let total = cap + over;
+                    let mut ops: Vec<String> = (0..total).map(|_| "acquire 0".to_string()).collect();
+                    ops.push("avail 0 1".into());
+                    ops.push(format!("avail 0 {}", NW + over % NI));
+                    let order: Vec<usize> = if newest_first { (0..total).rev().collect() } else { (0..total).collect() };
+                    for g in order {
+                        ops.push(format!("{} {g}", if unwind { "dropP" } else { "drop" }));
+                        ops.push("total 0".into());
+                    }
+                    // nobody may be left registered: refill and release once more
+                    ops.extend((0..cap).map(|_| "acquire 0".to_string()));
+                    ops.push(format!("drop {total}"));
+                    ops.push("avail 0 2".into());
+                    *n += 1;
+                    emit(
+                        w,
+                        &format!("case sc-inline-{cap}-{over}-{}{}{} counter {cap}{}", newest_first as u8, unwind as u8, if probe { "p" } else { "" }, if probe { " probe" } else { "" }),
+                        &ops,
+                    );
+                }
+            }
         }
     }
     for how in ["lw", "lw default"] {
@@ -1023,6 +1203,57 @@ fn gen_counter_handles_exhaustive(w: &mut dyn Write, cap: usize, len: usize, n: 
     rec(w, &mut st, cap, len, n);
 }
 
+/// C17 exhaustive over the re-entrant wakers and the unwinding drops: every sequence of exactly `len`
+/// applicable operations over {acquire, drop and dropP of the oldest / newest live guard, avail with
+/// waker 0 (counting), 4, 5 (inline-polling)}; odd-numbered cases run with the availability probe.
+fn gen_counter_inline_exhaustive(w: &mut dyn Write, cap: usize, len: usize, n: &mut u64) {
+    struct St {
+        ops: Vec<String>,
+        live: Vec<usize>,
+        next_guard: usize,
+    }
+    fn rec(w: &mut dyn Write, st: &mut St, cap: usize, len: usize, n: &mut u64) {
+        if st.ops.len() == len {
+            *n += 1;
+            writeln!(w, "case ci{}-{} counter {cap}{}", cap, *n, if *n % 2 == 1 { " probe" } else { "" }).unwrap();
+            for o in &st.ops {
+                writeln!(w, "{o}").unwrap();
+            }
+            return;
+        }
+        st.ops.push("acquire 0".into());
+        st.live.push(st.next_guard);
+        st.next_guard += 1;
+        rec(w, st, cap, len, n);
+        st.next_guard -= 1;
+        st.live.pop();
+        st.ops.pop();
+        let mut cands: Vec<usize> = vec![];
+        if !st.live.is_empty() {
+            cands.push(0);
+            if st.live.len() > 1 {
+                cands.push(st.live.len() - 1);
+            }
+        }
+        for k in cands {
+            let g = st.live.remove(k);
+            for op in ["drop", "dropP"] {
+                st.ops.push(format!("{op} {g}"));
+                rec(w, st, cap, len, n);
+                st.ops.pop();
+            }
+            st.live.insert(k, g);
+        }
+        for wk in [0, NW, NW + 1] {
+            st.ops.push(format!("avail 0 {wk}"));
+            rec(w, st, cap, len, n);
+            st.ops.pop();
+        }
+    }
+    let mut st = St { ops: vec![], live: vec![], next_guard: 0 };
+    rec(w, &mut st, cap, len, n);
+}
+
 fn gen_lw_exhaustive(w: &mut dyn Write, alpha: &[&str], how: &str, len: usize, n: &mut u64) {
     let total = alpha.len().pow(len as u32);
     for mut k in 0..total {
@@ -1069,7 +1300,7 @@ fn gen_counter_random(w: &mut dyn Write, rng: &mut Rng, cases: usize, max_len: u
                     if rng.chance(1, 5) {
                         writeln!(w, "dbgG {}", live[k]).unwrap();
                     } else {
-                        writeln!(w, "drop {}", live.remove(k)).unwrap();
+                        writeln!(w, "{} {}", if rng.chance(1, 5) { "dropP" } else { "drop" }, live.remove(k)).unwrap();
                     }
                 } else {
                     writeln!(w, "total 0").unwrap();
@@ -1080,9 +1311,11 @@ fn gen_counter_random(w: &mut dyn Write, rng: &mut Rng, cases: usize, max_len: u
                 next += 1;
             } else if r < 58 && !live.is_empty() {
                 let k = rng.below(live.len());
-                writeln!(w, "drop {}", live.remove(k)).unwrap();
+                writeln!(w, "{} {}", if rng.chance(1, 5) { "dropP" } else { "drop" }, live.remove(k)).unwrap();
             } else if r < 82 {
-                writeln!(w, "avail {} {}", rng.pick(&handles), rng.below(NW)).unwrap();
+                // one in four askers polls inline when woken (wakers 4, 5)
+                let wk = if rng.chance(1, 4) { NW + rng.below(NI) } else { rng.below(NW) };
+                writeln!(w, "avail {} {wk}", rng.pick(&handles)).unwrap();
             } else if r < 87 && next_h < 5 {
                 writeln!(w, "clone {}", rng.pick(&handles)).unwrap();
                 handles.push(next_h);
@@ -1119,6 +1352,12 @@ fn gen_c17(a: &Args, w: &mut dyn Write) {
     for cap in 0..=2 {
         gen_counter_handles_exhaustive(w, cap, if thorough { 7 } else { 6 }, &mut nh);
     }
+    // (2c) inline-polling wakers and drops during a caught unwind: every sequence over {acquire, drop / dropP of
+    // the oldest / newest guard, avail with the counting waker 0 or the inline-polling wakers 4, 5}
+    let mut ni = 0u64;
+    for cap in 1..=2 {
+        gen_counter_inline_exhaustive(w, cap, if thorough { 7 } else { 6 }, &mut ni);
+    }
     // (3) LocalWaker: all register/wake/take sequences with 2 wakers; with Debug and `default()` shorter
     let mut m = 0u64;
     gen_lw_exhaustive(w, &["reg 0", "reg 1", "wake", "take"], "lw", if thorough { 8 } else { 6 }, &mut m);
@@ -1126,7 +1365,7 @@ fn gen_c17(a: &Args, w: &mut dyn Write) {
     // (4) random long histories, capacities 0..5, 4 wakers, clones, dropped handles, junk lines
     let mut rng = Rng::new(a.seed ^ 0x17);
     gen_counter_random(w, &mut rng, if thorough { 20000 } else { 1500 }, 40);
-    eprintln!("C17 gen: {sc} scenarios, {n} exhaustive counter cases, {nh} exhaustive handle cases, {m} LocalWaker cases");
+    eprintln!("C17 gen: {sc} scenarios, {n} exhaustive counter cases, {nh} exhaustive handle cases, {ni} exhaustive inline-waker/unwind cases, {m} LocalWaker cases");
 }
 
 /// C16 directed scenarios, emitted first: a channel with `buffered` messages is ended in every way
@@ -1168,7 +1407,7 @@ fn gen_c16_scenarios(w: &mut dyn Write, n: &mut u64) {
     }
     // park through every path, wake through every event, ask again through every path
     for (pi, park) in ["poll 1", "recv 1", "recvNew 1", "recv 1\nrecvDrop", "recv 2\nrecv 1", "recv 2\nrecvNew 1", "recv 2\npoll 1", "poll 2\nrecv 1"].iter().enumerate() {
-        for (ei, event) in ["send 0 7", "ssend 0 7", "close 0", "dropS 0", "clone 0\ndropS 0\ndropS 1", "rsender\ndropS 0\nsend 1 7", "sready 0 2\nsflush 0 2\nsclose 0 2\nsend 0 7"].iter().enumerate() {
+        for (ei, event) in ["send 0 7", "ssend 0 7", "close 0", "dropS 0", "clone 0\ndropS 0\ndropS 1", "rsender\ndropS 0\nsend 1 7", "sready 0 2\nsflush 0 2\nsclose 0 2\nsend 0 7", "dropSP 0", "clone 0\ndropSP 1\ndropSP 0", "clone 0\ndropSP 0\ndropS 1", "send 0 7\ndropSP 0"].iter().enumerate() {
             for (ai, again) in ["poll 0", "recv 0", "recvNew 0"].iter().enumerate() {
                 let mut ops: Vec<String> = vec![];
                 for part in [park, event, again, again, &"dbgR"] {
@@ -1200,6 +1439,8 @@ struct ChCfg {
     rsender: bool,
     extra: &'static [&'static str],
     sender_extra: &'static [&'static str],
+    /// also drop senders and the receiver during a caught unwind (`dropSP`, `dropRP`)
+    unwind: bool,
     tag: &'static str,
 }
 fn gen_chan_exhaustive(w: &mut dyn Write, cfg: ChCfg, n: &mut u64) {
@@ -1211,7 +1452,7 @@ fn gen_chan_exhaustive(w: &mut dyn Write, cfg: ChCfg, n: &mut u64) {
         msg: usize,
     }
     fn rec(w: &mut dyn Write, st: &mut St, cfg: ChCfg, n: &mut u64) {
-        let ChCfg { len, max_senders, sym, wakers, rsender, extra, sender_extra, tag } = cfg;
+        let ChCfg { len, max_senders, sym, wakers, rsender, extra, sender_extra, tag, unwind: _ } = cfg;
         if st.ops.len() == len {
             *n += 1;
             writeln!(w, "case {tag}-{} chan", *n).unwrap();
@@ -1234,11 +1475,16 @@ fn gen_chan_exhaustive(w: &mut dyn Write, cfg: ChCfg, n: &mut u64) {
             if sym && k != 0 && k != alive.len() - 1 {
                 continue;
             }
-            st.ops.push(format!("dropS {i}"));
-            st.alive.remove(k);
-            rec(w, st, cfg, n);
-            st.alive.insert(k, i);
-            st.ops.pop();
+            for op in ["dropS", "dropSP"] {
+                if op == "dropSP" && !cfg.unwind {
+                    continue;
+                }
+                st.ops.push(format!("{op} {i}"));
+                st.alive.remove(k);
+                rec(w, st, cfg, n);
+                st.alive.insert(k, i);
+                st.ops.pop();
+            }
         }
         if let Some(&i) = alive.first() {
             st.ops.push(format!("close {i}"));
@@ -1287,11 +1533,16 @@ fn gen_chan_exhaustive(w: &mut dyn Write, cfg: ChCfg, n: &mut u64) {
                 st.alive.pop();
                 st.ops.pop();
             }
-            st.ops.push("dropR".into());
-            st.rx = false;
-            rec(w, st, cfg, n);
-            st.rx = true;
-            st.ops.pop();
+            for op in ["dropR", "dropRP"] {
+                if op == "dropRP" && !cfg.unwind {
+                    continue;
+                }
+                st.ops.push(op.into());
+                st.rx = false;
+                rec(w, st, cfg, n);
+                st.rx = true;
+                st.ops.pop();
+            }
         }
         if dead_end && !st.ops.is_empty() {
             // nothing is applicable any more (no sender, no receiver): emit the shorter sequence
@@ -1342,7 +1593,7 @@ fn gen_chan_random(w: &mut dyn Write, rng: &mut Rng, cases: usize, max_len: usiz
                 next += 1;
             } else if r < 81 && !alive.is_empty() {
                 let k = rng.below(alive.len());
-                writeln!(w, "dropS {}", alive.remove(k)).unwrap();
+                writeln!(w, "{} {}", if rng.chance(1, 5) { "dropSP" } else { "dropS" }, alive.remove(k)).unwrap();
             } else if r < 86 && rx && alive.len() < 4 {
                 writeln!(w, "rsender").unwrap();
                 alive.push(next);
@@ -1359,7 +1610,7 @@ fn gen_chan_random(w: &mut dyn Write, rng: &mut Rng, cases: usize, max_len: usiz
             } else if r < 91 + closey / 2 && !alive.is_empty() {
                 writeln!(w, "close {}", rng.pick(&alive)).unwrap();
             } else if r < 92 + closey && rx && rng.chance(1, 3) {
-                writeln!(w, "dropR").unwrap();
+                writeln!(w, "{}", if rng.chance(1, 4) { "dropRP" } else { "dropR" }).unwrap();
                 rx = false;
             } else {
                 writeln!(w, "{}", recv_line(rng, 2)).unwrap();
@@ -1373,7 +1624,7 @@ fn gen_c16(a: &Args, w: &mut dyn Write) {
     let mut sc = 0u64;
     gen_c16_scenarios(w, &mut sc);
     let mut n = 0u64;
-    let core = ChCfg { len: 6, max_senders: 3, sym: false, wakers: 2, rsender: true, extra: &[], sender_extra: &[], tag: "ch" };
+    let core = ChCfg { len: 6, max_senders: 3, sym: false, wakers: 2, rsender: true, extra: &[], sender_extra: &[], unwind: false, tag: "ch" };
     // (1) the core alphabet
     gen_chan_exhaustive(w, core, &mut n);
     if thorough {
@@ -1391,6 +1642,7 @@ fn gen_c16(a: &Args, w: &mut dyn Write) {
             rsender: false,
             extra: &["recv 0", "recv 1", "recvNew 1", "recvDrop"],
             sender_extra: &[],
+            unwind: false,
             tag: "chrv",
         },
         &mut nr,
@@ -1407,13 +1659,31 @@ fn gen_c16(a: &Args, w: &mut dyn Write) {
             rsender: false,
             extra: &["recv 1", "dbgR"],
             sender_extra: &["ssend {i} {x}", "sready {i} 1", "sflush {i} 1", "sclose {i} 1", "dbgS {i}"],
+            unwind: false,
             tag: "chsk",
         },
         &mut ns,
     );
+    // (1d) senders and the receiver dropped during a caught unwind, next to the normal drops
+    let mut nu = 0u64;
+    gen_chan_exhaustive(
+        w,
+        ChCfg {
+            len: if thorough { 6 } else { 5 },
+            max_senders: 2,
+            sym: true,
+            wakers: 1,
+            rsender: false,
+            extra: &["recv 1"],
+            sender_extra: &[],
+            unwind: true,
+            tag: "chuw",
+        },
+        &mut nu,
+    );
     let mut rng = Rng::new(a.seed ^ 0x16);
     gen_chan_random(w, &mut rng, if thorough { 30000 } else { 2000 }, 40);
-    eprintln!("C16 gen: {sc} scenarios, {n} exhaustive core cases, {nr} exhaustive receive-path cases, {ns} exhaustive sink/quiet cases");
+    eprintln!("C16 gen: {sc} scenarios, {n} exhaustive core cases, {nr} exhaustive receive-path cases, {ns} exhaustive sink/quiet cases, {nu} exhaustive unwinding-drop cases");
 }
 
 fn gen(a: &Args) {
